@@ -53,6 +53,19 @@ def stream_rows(ctx, ntables):
     R = ctx.rng
     S = ctx.stream("O-rows", "len(Synthesizer(typed table, implicit ids or an explicit column of distinct ids, single/none/default(<=4 cols) clustering, random noise levels incl. off).sample()) "
                    "vs the input row count; tables with nulls, extreme outliers, boundary values, 1..400 rows; non-trivial = N >= low_threshold")
+    # two well-populated tables first, each synthesized with a large noise level and then, same table and salt, with the noise switched off
+    for _ in range(2):
+        t = ES.gen_typed_table(R, max_rows=R.choice([200, 400]), ncols=R.choice([1, 2, 3]), min_rows=150, params="default")
+        t["pids"] = None; t["pid_mode"] = "unique"
+        for nsd, lsd in ((6.0, 1.0), (0.0, 0.0), (1.0, 1.0)):
+            t2 = dict(t, ap=replace(t["ap"], low_count_params=replace(t["ap"].low_count_params, layer_sd=lsd), layer_noise_sd=nsd))
+            try:
+                out = Synthesizer(t["df"], anonymization_params=t2["ap"], bucketization_params=t["bp"], clustering=SingleClustering()).sample()
+            except (RecursionError, ValueError):
+                break
+            S.count((repr(t["df"].values.tolist()), repr(t2["ap"]), "directed-history"), True,
+                    {"table": ES.typed_summary(t2), "strategy": "SingleClustering", "rows_out": len(out), "history": "noise 6.0, then off, then 1.0 on one table and salt"}, tag="noise-level-history")
+            oracle_rows(ctx, t2, "SingleClustering (same table and salt synthesized before with another layer_noise_sd)", len(out))
     for _ in range(ntables):
         t = ES.gen_typed_table(R, max_rows=R.choice([60, 200, 400]))
         t["pids"] = None; t["pid_mode"] = "unique"
